@@ -304,7 +304,83 @@ def judge (adv : Nat) : CView → List Ev → List String → Option String → 
       if soft then judge adv (advance v e o) es os (first <|> some ("FAIL:" ++ cls))
       else "FAIL:" ++ cls
 
+/-! ### real serve loop mode (`r=<adv>;...`): the same model, F / P expanded to "handler ends, frame written" -/
+
+/-- events the harness does not send once a graceful GOAWAY is under way (nothing would be visible: the frame reader
+    stops without a new GOAWAY, or a rejected SETTINGS leaves half-updated windows) — the script ends there -/
+def realStop (e : Ev) : Bool :=
+  framingErr e || (match e with | .S false (some _) => true | _ => false)
+
+def realOut : Out → String
+  | .ok => "ok" | .rst c => "rst:" ++ toString c | .ga c => "ga:" ++ toString c | .close => "close"
+  | .panic _ => "close"          -- a serve-loop panic is recovered by notePanic and the connection is closed
+  | .nohandler => "nohandler"
+  | _ => "ok"
+
+/-- returns the final connection, the outcomes and whether the connection is over -/
+def realRun : Conn → List Ev → List String → Conn × List String × Bool
+  | c, [], acc => (c, acc.reverse, false)
+  | c, e :: r, acc =>
+    if c.goAway.isSome && realStop e then (c, acc.reverse, false)
+    else
+      let (c', o) : Conn × String :=
+        match e with
+        | .F id =>
+          let x := cstep c (.F id)
+          if x.2 == .nohandler then (x.1, "nohandler")
+          else
+            let y := cstep x.1 .W
+            (y.1, if x.2 == .held then (match y.2 with | .rst 0 => "rst:0" | .panic _ => "close" | _ => "ok") else "ok")
+        | .P id =>
+          let x := cstep c (.P id)
+          if x.2 == .nohandler then (x.1, "nohandler")
+          else
+            let y := cstep x.1 .W
+            (y.1, if x.2 == .held then (match y.2 with | .panic _ => "close" | _ => "rst:2") else "ok")
+        | _ => let x := cstep c e; (x.1, realOut x.2)
+      let over := o == "close" || (o.startsWith "ga:" && o != "ga:0")
+      if over then (c', (o :: acc).reverse, true) else realRun c' r (o :: acc)
+
+/-- the real-mode observation translated to the scripted alphabet, for the same client-side oracle -/
+def realTranslate : List Ev → List String → List Ev × List String
+  | e :: es, o :: os =>
+    let (es', os') := realTranslate es os
+    match e with
+    | .F id =>
+      if o == "nohandler" then (.F id :: .W :: es', "nohandler" :: "idle" :: os')
+      else if o == "close" then (.F id :: .W :: es', "held" :: "panic:real" :: os')
+      else (.F id :: .W :: es', "held" :: o :: os')
+    | .P id =>
+      if o == "nohandler" then (.P id :: .W :: es', "nohandler" :: "idle" :: os')
+      else if o == "rst:2" then (.P id :: .W :: es', "held" :: "ok" :: os')
+      else if o == "ok" then (.P id :: .W :: es', "skip" :: "idle" :: os')
+      else (.P id :: .W :: es', "held" :: "panic:real" :: os')
+    | _ => (e :: es', o :: os')
+  | _, _ => ([], [])
+
+def runReal (op impl : String) : Ans :=
+  match op.splitOn ";" with
+  | m :: rest =>
+    match (m.drop 2).toString.toNat?, (rest.filter (· != "")).mapM parseEv with
+    | some adv, some evs =>
+      if evs.any (fun e => match e with | .B .. => true | .W => true | .T _ => true | .H _ _ (.conn _) => true | _ => false) then
+        { model := "bad-op", verdict := "skip" }
+      else
+        let (c, outs, over) := realRun { adv := adv } evs []
+        let o := ",".intercalate outs
+        let model := (if o.isEmpty then "-" else o) ++ "|" ++ (if over then "" else renderState c)
+        let implOuts := match impl.splitOn "|" with
+          | x :: _ => if x == "-" then [] else x.splitOn ","
+          | [] => []
+        let (tes, tos) := realTranslate evs implOuts
+        let verdict := if impl.contains "HANG" then "FAIL:hang" else judge adv {} tes tos none
+        { model := model, verdict := verdict,
+          tags := ["real"] ++ (if outs.length ≥ 4 then ["nt"] else []) ++ (if over then ["real-over"] else []) }
+    | _, _ => { model := "bad-op", verdict := "skip" }
+  | _ => { model := "bad-op", verdict := "skip" }
+
 def run (op impl : String) : Ans :=
+  if op.startsWith "r=" then runReal op impl else
   match parseOp op with
   | none => { model := "bad-op", verdict := "skip" }
   | some (adv, evs) =>
